@@ -122,6 +122,9 @@ func (g *Gen) text(lead, trail int) string {
 		sb.WriteString(g.ws())
 	}
 	s := sb.String()
+	if !g.Known {
+		s = avoidN01(s)
+	}
 	// a text node must not let "&" run into a following alphanumeric run that ends in ";" : the word list
 	// is built so that this cannot happen inside a word; across words there is either whitespace or a
 	// word that starts with a non-alphanumeric... make sure.
@@ -159,6 +162,26 @@ func fixAmp(s string) string {
 		// bare & + alnum run without ';': conforming only if no legacy name is a prefix of the run
 		if hasLegacyPrefix(s[i+1 : j]) {
 			sb.WriteString("amp;")
+		}
+	}
+	return sb.String()
+}
+
+// avoidN01 separates a reference that decodes to "&" from a following reference that decodes to
+// something starting with an alphanumeric or "#" (the pair would be re-read as a new reference).
+func avoidN01(s string) string {
+	us := units(s)
+	var sb strings.Builder
+	for i, u := range us {
+		sb.WriteString(u)
+		if i+1 < len(us) && len(u) > 1 && u[0] == '&' && xhtml.UnescapeString(u) == "&" {
+			nx := us[i+1]
+			if len(nx) > 1 && nx[0] == '&' {
+				d := xhtml.UnescapeString(nx)
+				if d != nx && len(d) > 0 && (isAlnum(d[0]) || d[0] == '#') {
+					sb.WriteByte(' ')
+				}
+			}
 		}
 	}
 	return sb.String()
@@ -376,6 +399,14 @@ func (g *Gen) avoidTrailingP(n *Node) {
 	}
 }
 
+// lc: N03 — a script/style type that is not lower-case is dropped as default but its content is not minified
+func (g *Gen) lc(s string) string {
+	if g.Known {
+		return s
+	}
+	return strings.ToLower(s)
+}
+
 func (g *Gen) rawElem(tag, content string) *Node {
 	n := g.elem(tag)
 	n.RawText = true
@@ -389,14 +420,17 @@ func (g *Gen) rawElem(tag, content string) *Node {
 var scriptBodies = []string{
 	"x = 1 ;", "var a = \"<b>\" ;\n", "if (a < b && c > d) { f() }", "document.write('<p>x<\\/p>');", "a = '&amp;' + \"&lt;\";",
 	"<!-- \n x = 1 \n-->", "<!-- <script> a() </script> --> b = 2 ;", "var s = \"<\\/script>\";", "  \n  y  =  2  \n ", "a</scrip>b", "x = '</scriptx>'; ",
-	"/* </style> */ z()", "var t = `a${b}c`; // c", "a = b + +c ; d = e - -f", "f(\"  \")", "0", "\"use strict\";", "'</SCRIPT' + 'x'",
+	"/* </style> */ z()", "var t = `a${b}c`; // c", "a = b + +c ; d = e - -f", "f(\"  \")", "0", "\"use strict\";", "'<\\/SCRIPT' + 'x'",
 }
+
+// N02: "</script" followed by something that is not a tag-end character does not end the element
+var n02Bodies = []string{"'</SCRIPT' + 'x'", "var a='</script'+'>';", "x = \"</script1\";"}
 var k30Bodies = []string{"var a=\"\\x3C/script>\";", "var a = '\\u003C/script\\u003E';", "document.write(\"\\x3Cscript>x()\\x3C/script>\")"}
 var styleBodies = []string{
 	"a { color : red ; }", "p>b{margin:0 0 0 0}", "/* c */ .x{}", "a::before{content:\"</b>\"}", "<!-- b{c:d} -->", " \n ", "div{background:url( 'a b.png' )}", "@media screen { a { b : c } }", "x{y:'</styl'}", "a{b:c}  /* </script> */",
 }
 var jsonBodies = []string{"{ \"a\" : 1 , \"b\" : [ 1 , 2 ] }", "[ ]", "{\"@context\":\"https://schema.org\",\"name\":\"<b>x</b> &amp;\"}"}
-var rcdataBodies = []string{" a  b ", "x &amp; y", "&lt;/textarea&gt;", "<b>not bold</b>", "line1\nline2\n\n", "\n\nx", "  ", "a</textare>b", "<!-- c -->", "é &eacute; &#233;", "a &lt; b", "tab\there", "</ title>", "{{ x }}  y"}
+var rcdataBodies = []string{" a  b ", "x &amp; y", "&lt;/textarea&gt;", "<b>not bold</b>", "line1\nline2\n\n", "\n\nx", "  ", "a</textare>b", "<!-- c -->", "é &eacute; &#233;", "a &lt; b", "tab\there", "</ title>"}
 
 func (g *Gen) script(c ctx) *Node {
 	var n *Node
@@ -409,16 +443,18 @@ func (g *Gen) script(c ctx) *Node {
 		}
 	case 1:
 		n = g.rawElem("script", jsonBodies[g.r.Intn(len(jsonBodies))])
-		n.Attrs = append(n.Attrs, g.mkAttr("type", g.r.Pick("application/ld+json", "application/json", "application/ld+json ", "Application/LD+JSON")))
+		n.Attrs = append(n.Attrs, g.mkAttr("type", g.lc(g.r.Pick("application/ld+json", "application/json", "application/ld+json ", "Application/LD+JSON"))))
 	case 2:
 		n = g.rawElem("script", scriptBodies[g.r.Intn(len(scriptBodies))])
-		n.Attrs = append(n.Attrs, g.mkAttr("type", g.r.Pick("text/javascript", "application/javascript", "module", "text/javascript", "TEXT/JavaScript", " text/javascript ", "text/javascript;charset=utf-8", "text/ecmascript", "text/x-template", "text/plain", "importmap", "application/javascript; version=1")))
+		n.Attrs = append(n.Attrs, g.mkAttr("type", g.lc(g.r.Pick("text/javascript", "application/javascript", "module", "text/javascript", "TEXT/JavaScript", " text/javascript ", "text/javascript;charset=utf-8", "text/ecmascript", "text/x-template", "text/plain", "importmap", "application/javascript; version=1"))))
 	case 3:
 		n = g.rawElem("script", "")
 	default:
 		b := scriptBodies[g.r.Intn(len(scriptBodies))]
 		if g.Known && g.r.Chance(1, 6) {
 			b = k30Bodies[g.r.Intn(len(k30Bodies))]
+		} else if g.Known && g.r.Chance(1, 6) {
+			b = n02Bodies[g.r.Intn(len(n02Bodies))]
 		}
 		n = g.rawElem("script", b)
 		if g.r.Chance(1, 6) {
@@ -432,7 +468,7 @@ func (g *Gen) style() *Node {
 	n := g.rawElem("style", styleBodies[g.r.Intn(len(styleBodies))])
 	switch g.r.Intn(8) {
 	case 0:
-		n.Attrs = append(n.Attrs, g.mkAttr("type", g.r.Pick("text/css", "Text/CSS", " text/css")))
+		n.Attrs = append(n.Attrs, g.mkAttr("type", g.lc(g.r.Pick("text/css", "Text/CSS", " text/css"))))
 	case 1:
 		n.Attrs = append(n.Attrs, g.mkAttr("media", g.r.Pick("all", "screen", "ALL", "screen and (min-width: 1px)", "print, screen")))
 	case 2:
@@ -444,7 +480,11 @@ func (g *Gen) style() *Node {
 }
 
 func (g *Gen) textarea() *Node {
-	n := g.rawElem("textarea", rcdataBodies[g.r.Intn(len(rcdataBodies))])
+	body := rcdataBodies[g.r.Intn(len(rcdataBodies))]
+	if g.Known && g.tmpl && g.r.Chance(1, 3) {
+		body = g.r.Pick("{{ x }}  y", " a  {{ x }}", "&amp;{{x}}&lt;b&gt;") // N05
+	}
+	n := g.rawElem("textarea", body)
 	n.Attrs = g.attrsFor("textarea", ctx{})
 	return n
 }
@@ -1165,6 +1205,9 @@ func (g *Gen) encodeVal(v string) (string, byte) {
 		if !must && g.r.Chance(1, 12) && c < 0x10000 {
 			must = true
 		}
+		if !g.Known && i > 0 && rs[i-1] == '&' && (c < 128 && isAlnum(byte(c)) || c == '#') {
+			must = false // N01: "&amp;" followed by a reference that decodes to an alphanumeric
+		}
 		if !must {
 			sb.WriteRune(c)
 			continue
@@ -1259,8 +1302,12 @@ func (g *Gen) urlVal() string {
 	return g.r.Pick("a.png", "/x", "x?y=`z`", "javascript:void(0)", "http://a", "https:", "httpx://y", "../up", "a=b", "?a>b", "x.js ", "\ty")
 }
 
-var onBodies = []string{"f()", "javascript:f()", " a = 1 ; ", "JavaScript: g( 'x' )", "return a<b&&c>d", "alert(\"x\")", "alert('y')", "x=`t`", "a&&b", "if(a&b)c()", "", "javascript:", " ", "s='&amp;'", "w(\"<b>\")"}
-var cssBodies = []string{"color: red", " color : red ; ", "background:url('a.png')", "font-family:\"A B\"", "", " ", "content:'\"'", "margin:0 0 0 0;", "a:b;c:d", "width:calc(1px + 2px)", "color:red;;", "x:'&amp;'"}
+var onBodies = []string{"f()", "javascript:f()", " a = 1 ; ", "JavaScript: g( 'x' )", "return a<b && c>d", "alert(\"x\")", "alert('y')", "x=`t`", "a && b", "if(a & b)c()", "", "javascript:", " ", "s='& '", "w(\"<b>\")"}
+var cssBodies = []string{"color: red", " color : red ; ", "background:url('a.png')", "font-family:\"A B\"", "", " ", "content:'\"'", "margin:0 0 0 0;", "a:b;c:d", "width:calc(1px + 2px)", "color:red;;", "x:'& '"}
+
+// N04: "&amp;" directly followed by an alphanumeric stays encoded in the payload handed to the css/js minifier
+var n04On = []string{"a&&b", "if(a&&b)c()", "s='&amp;'", "x=a&b", "return a<b&&c>d"}
+var n04Css = []string{"x:'&amp;'", "background:url(a?b=1&c=2)"}
 
 func (g *Gen) globalAttrs(max int, c ctx) []Attr {
 	var as []Attr
@@ -1276,9 +1323,17 @@ func (g *Gen) globalAttrs(max int, c ctx) []Attr {
 		case 3, 4:
 			a = g.mkAttr("title", g.freeVal())
 		case 5:
-			a = g.mkAttr("style", cssBodies[g.r.Intn(len(cssBodies))])
+			b := cssBodies[g.r.Intn(len(cssBodies))]
+			if g.Known && g.r.Chance(1, 4) {
+				b = n04Css[g.r.Intn(len(n04Css))]
+			}
+			a = g.mkAttr("style", b)
 		case 6:
-			a = g.mkAttr(g.r.Pick("onclick", "onmouseover", "onfocus"), onBodies[g.r.Intn(len(onBodies))])
+			b := onBodies[g.r.Intn(len(onBodies))]
+			if g.Known && g.r.Chance(1, 4) {
+				b = n04On[g.r.Intn(len(n04On))]
+			}
+			a = g.mkAttr(g.r.Pick("onclick", "onmouseover", "onfocus"), b)
 		case 7, 8:
 			a = g.mkAttr("data-"+g.r.Pick("x", "v", "long-name"), g.freeVal())
 		case 9:
@@ -1650,4 +1705,110 @@ func (g *Gen) link() *Node {
 		l.Attrs = append(l.Attrs, g.mkAttr("crossorigin", g.r.Pick("", "anonymous", "use-credentials")))
 	}
 	return l
+}
+
+// finish: post-pass over the generated tree — unique attribute names per element, and (unless Known)
+// separation of the N06/N07 shapes.
+func (g *Gen) finish(n *Node) {
+	if n.Kind == KElem && len(n.Attrs) > 1 {
+		seen := map[string]bool{}
+		var as []Attr
+		for _, a := range n.Attrs {
+			k := strings.ToLower(a.Name)
+			if seen[k] {
+				continue
+			}
+			seen[k] = true
+			as = append(as, a)
+		}
+		n.Attrs = as
+	}
+	for _, k := range n.Kids {
+		g.finish(k)
+	}
+}
+
+// elements after which the minifier does not reset its "omit next leading space" state although a
+// rendered atomic box (embed, audio[controls]) or an invisible element (template) separates the texts
+func spaceEater(n *Node) bool {
+	return n.isElem("embed", "audio", "template", "datalist")
+}
+
+var genBlockish = setOf("div p section article aside nav header footer main h1 h2 h3 h4 h5 h6 hgroup ul ol menu li dl dt dd blockquote pre figure figcaption address details summary fieldset legend form table caption colgroup col thead tbody tfoot tr td th hr dialog br option optgroup noscript body html head title style")
+var genObjectish = setOf("button canvas iframe img input meter object progress q rt select svg math textarea video wbr marquee")
+
+// trimNextLeadingSpace walks forward in document order from position (kids,i) and removes the leading white
+// space of the first text met before any block or object boundary. Returns true when it is done (stop climbing).
+func trimNextLeadingSpace(kids []*Node, i int) bool {
+	for j := i; j < len(kids); j++ {
+		k := kids[j]
+		switch k.Kind {
+		case KText:
+			t := strings.TrimLeft(k.Text, " \t\n\f\r")
+			if t == "" {
+				k.Text = ""
+				continue
+			}
+			k.Text = t
+			return true
+		case KRaw:
+			return true
+		case KElem:
+			if genBlockish[k.Tag] || genObjectish[k.Tag] {
+				return true
+			}
+			if k.RawText {
+				continue
+			}
+			if trimNextLeadingSpace(k.Kids, 0) {
+				return true
+			}
+		}
+	}
+	return false
+}
+
+func (g *Gen) avoidSpaceEaters(n *Node, anc []*Node, idx []int) {
+	for i, k := range n.Kids {
+		if k.Kind == KElem {
+			g.avoidSpaceEaters(k, append(anc, n), append(idx, i))
+		}
+		if k.Kind == KElem && spaceEater(k) {
+			// forward within this parent, then climb while the parents are inline
+			if trimNextLeadingSpace(n.Kids, i+1) {
+				continue
+			}
+			cur := n
+			for lvl := len(anc) - 1; lvl >= 0; lvl-- {
+				if genBlockish[cur.Tag] || genObjectish[cur.Tag] || cur.Tag == "#root" {
+					break
+				}
+				if trimNextLeadingSpace(anc[lvl].Kids, idx[lvl]+1) {
+					break
+				}
+				cur = anc[lvl]
+			}
+		}
+	}
+}
+
+func dropEmptyText(n *Node) {
+	var ks []*Node
+	for _, k := range n.Kids {
+		if k.Kind == KText && k.Text == "" && !n.RawText {
+			continue
+		}
+		dropEmptyText(k)
+		ks = append(ks, k)
+	}
+	n.Kids = ks
+}
+
+// Finish must be called on every generated tree.
+func (g *Gen) Finish(root *Node) {
+	g.finish(root)
+	if !g.Known {
+		g.avoidSpaceEaters(root, nil, nil)
+		dropEmptyText(root)
+	}
 }
